@@ -619,3 +619,8 @@ def run(rep, program: Program, tier: str) -> None:
     from . import c16
 
     rep.isolate(c16.rule_record_flags, rep, program, prop=PROP, rule="R6")
+    # a traced quantity that is cached in the state (e.g. the Hamiltonian) is that of the row's state only if every update
+    # of a state variable goes through assignment, which invalidates the cache (shared with C09-R7)
+    from . import c09
+
+    rep.isolate(c09.rule_r7, rep, program, control=False, prop=PROP, rule="R7")
